@@ -6,7 +6,7 @@
    with the content and with the model's load.   Proved in Coq so far (stages of T2, for all inputs):
    scalars (C12), the whole data section (every frame, point, residual, analog sample, any sizes), name
    binding by position, the stream discipline, and that the loader reaches no unchecked access. *)
-From EZ Require Import Base Bytes Types Api Enc Dec Float32 Run Proofs_Bytes Proofs_Codec Proofs_Robust.
+From EZ Require Import Base Bytes Types Api Enc Dec Float32 Run Proofs_Bytes Proofs_Codec Proofs_Record Proofs_Robust.
 Local Open Scope N_scope.
 
 (* stage: a float is read back as the pattern its four bytes spell *)
@@ -44,6 +44,20 @@ Proof. exact (conj hex2int_le2 (conj hex2int_le1 hex2uint_le2)). Qed.
 Print Assumptions C02_integers.
 
 (* non-vacuity: the model loads the file the model writes for a small object, residual included *)
+(* Parameter::read on a well-formed record: exactly the parameter the bytes encode, and the position of the next record *)
+Theorem C02_parameter_record : forall p st r,
+  wf_param p -> st_fail st = false ->
+  let off := (2 + zlen (param_body p) + zlen (param_tail p))%Z in
+  st_rest st = upper (p_name p) ++ le_bytes 2 off ++ param_body p ++ param_tail p ++ r ->
+  let o16 := (off mod 65536)%Z in
+  let nxt := if (o16 =? 0)%Z then 0%Z
+             else wrap32s (Z.of_N (st_pos st + N.of_nat (length (p_name p)) + 2) + o16 - 2) in
+  read_param (hex2int [name_len_byte (p_name p) (p_lock p)]) st =
+    Ok ((mkParam (upper (p_name p)) (p_desc p) (p_lock p) (p_type p) (p_dims p) (p_ints p) (p_floats p) (p_strs p), nxt),
+        adv st (length (p_name p) + 2 + length (param_body p ++ param_tail p)) r).
+Proof. exact read_param_written. Qed.
+Print Assumptions C02_parameter_record.
+
 Example C02_nonvacuous :
   let rate := mkParam nm_RATE [] false TFloat [1] [] [1120403456] [] in
   let f := mkFrame [mkPoint [97] 1065353216 1073741824 1077936128 1082130432] [] in
